@@ -390,9 +390,9 @@ def c17(run, vc):
     r, bad = _tlc_stage(run, vc, "MC_TimeLock", "MC_TimeLock_%s.cfg" % tier, ["TLDecrypt"], timeout=7200)
     if bad:
         return run.finish()
-    tl = [v for v in r["vectors"] if v["act"] == "TLDecrypt" and v["rightsig"] and any(o["op"] == "W" for o in v["ct"]["ops"])]
+    tl = [v for v in r["vectors"] if v["act"] == "TLDecrypt" and v["rightsig"] and (any(o["op"] == "W" for o in v["ct"]["ops"]) or v.get("crafts"))]
     s = only_aborts(vc.replay(tl, "c17_tl", tables, profiles="5", build="checked"))
-    run.add_replay(s, "time-lock: every W region flipped / truncated to every length / emptied / extended (checked build)", tl, lambda v: True)
+    run.add_replay(s, "time-lock: every W region flipped / truncated to every length / emptied / extended; sender-crafted length prefixes and alpha (checked build)", tl, lambda v: True)
     r, bad = _tlc_stage(run, vc, "MC_Pok", "MC_Pok_%s.cfg" % tier, ["PokTs"], timeout=7200)
     if bad:
         return run.finish()
